@@ -167,18 +167,18 @@ Proof.
   cbn [firstn]. apply app_nil_r.
 Qed.
 
-(* The accounting of one call.  Whenever the call does not strip a BOM: [advance] stays
-   within the data, the token is the finished slice data[skip:advance] - whatever the buffer
-   holds behind the data - and the slice never panics.  With a BOM the advance is still in
-   range, so the Scanner never rejects it. *)
+(* The accounting of one call: [advance] stays within the data, the token is the finished
+   slice data[skip:advance] - whatever the buffer holds behind the data - with [skip] behind
+   a BOM the call stripped, and the slice never panics. *)
 Theorem scan_accounting c s data stale nz e : valid_sep (c_sep c) -> 0 <= nz ->
   match snd (scan c s data stale nz e) with
   | ORecord adv tok fields =>
       0 <= adv <= zlen data /\
-      ((st_noBOM s = true \/ prefix_of bom data = false) ->
-       exists skip cr, 0 <= skip <= adv /\ tok = finish_token cr (ztake (adv - skip) (zdrop skip data)))
+      exists skip cr, 0 <= skip <= adv /\
+        (negb (st_noBOM s) && prefix_of bom data = true -> 3 <= skip) /\
+        tok = finish_token cr (ztake (adv - skip) (zdrop skip data))
   | OHeader adv _ => 0 <= adv <= zlen data
-  | OPanic => st_noBOM s = false /\ prefix_of bom data = true
+  | OPanic => False
   | _ => True
   end.
 Proof.
@@ -191,7 +191,7 @@ Proof.
     apply andb_true_iff in B as [_ B]. apply prefix_of_inv in B as [t ->].
     change 3 with (zlen bom) at 2. rewrite zdrop_app_len. zl. cbn. lia. }
   destruct (e && (zlen data1 =? 0)); [exact I|].
-  destruct (skip_lines c e (S (length data1)) data1 adv0 0) as [| |line data2 adv skip] eqn:Sk;
+  destruct (skip_lines c e (S (length data1)) data1 adv0 adv0) as [| |line data2 adv skip] eqn:Sk;
     [exact I | exact I |].
   apply (skip_acct c e) in Sk as (_ & Sa & S1 & S2).
   destruct (parse_field c e (S (length data1)) line data2 adv [] false) as [|adv' fields cr|] eqn:P;
@@ -199,15 +199,9 @@ Proof.
   destruct (proj1 (parse_acct c e Hv _) _ _ _ _ _ _ _ _ P) as (dF & [pre Ps] & Pa).
   assert (zlen dF <= zlen data2) by (rewrite Ps; zl; pose proof (zlen_nonneg pre); lia).
   pose proof (zlen_nonneg dF). pose proof (zlen_nonneg line). pose proof (zlen_nonneg data2).
-  assert (Hadv : 0 <= skip <= adv' /\ adv' <= zlen data) by lia.
-  destruct ((st_row (if isbom then mkSt true (st_row s) else s) =? 0) && c_header c); cbn [snd]; [lia|].
-  destruct isbom eqn:B.
-  - (* a BOM was stripped in this call *)
-    assert (HB : st_noBOM s = false /\ prefix_of bom data = true).
-    { unfold isbom in B. apply andb_true_iff in B as [B1 B2]. split; [|exact B2].
-      destruct (st_noBOM s); [discriminate | reflexivity]. }
-    destruct (slice_cap (data1 ++ stale) nz skip adv') eqn:Sl; cbn [snd]; try exact HB.
-    split; [lia|]. intros [G | G]; destruct HB; congruence.
-  - unfold data1, adv0 in *. rewrite slice_cap_inside by lia. cbn [snd]. split; [lia|].
-    intros _. exists skip, cr. split; [lia | reflexivity].
+  assert (Hadv : adv0 <= skip <= adv' /\ adv' <= zlen data) by lia.
+  destruct ((st_row s =? 0) && c_header c); cbn [snd]; [lia|].
+  rewrite slice_cap_inside by lia. cbn [snd]. split; [lia|].
+  exists skip, cr. split; [lia|]. split; [|reflexivity].
+  intros B. unfold adv0 in Hadv. rewrite B in Hadv. lia.
 Qed.
